@@ -73,7 +73,7 @@ uint32 *dlen;
   h2 = (h >> 8) % lenhash;
 
   for (loop = 0;loop < lenhash;++loop) {
-    if (lseek(fd,(off_t) (pos + 8 * h2),SEEK_SET) == -1) return -1;
+    if (lseek(fd,(off_t) pos + 8 * (off_t) h2,SEEK_SET) == -1) return -1;
     if (cdb_bread(fd,packbuf,8) == -1) return -1;
     poskd = cdb_unpack(packbuf + 4);
     if (!poskd) return 0;
